@@ -55,11 +55,11 @@ REAL_VS_STUB = dict(
 OPS_ALL = ("open", "trees", "cross", "auto", "hist", "iter")
 
 
-def _probe_func(arg, offset):
+def _probe_func(arg, offset, scale=1):
     sim = current_sim()
     if sim is not None:
         sim.objects.setdefault("probe_log", []).append(arg)
-    return (arg, arg * arg + offset)
+    return (arg, arg * arg * scale + offset)
 
 
 def gen_cases(tier: str, verif_seed: int, runs: int | None = None) -> list[dict]:
@@ -101,6 +101,8 @@ def gen_cases(tier: str, verif_seed: int, runs: int | None = None) -> list[dict]
                 count_rr=prng.chance(2, 3),
                 ntasks=prng.randint(1, 9),
                 variants=variants,
+                leafsize=prng.choice([None, None, 4, 64]),
+                force=prng.chance(1, 4),
             )
         )
     return cases
@@ -181,9 +183,15 @@ def _run_ops(case: dict, paths: dict, max_workers, progress: bool, state: dict) 
         state[f"reopen.{name}"] = orc.catalog_state(cats[name])
     if "trees" in ops:
         edges, closed = scene["edges"], scene["closed"]
-        cats["ref"].build_trees(edges, closed=closed, progress=progress, **kw)
+        # rarely supplied options travel to the workers as keyword arguments of the task
+        tk = {}
+        if case.get("leafsize"):
+            tk["leafsize"] = case["leafsize"]
+        if case.get("force"):
+            tk["force"] = True
+        cats["ref"].build_trees(edges, closed=closed, progress=progress, **tk, **kw)
         state["trees.ref"] = orc.tree_state(cats["ref"])
-        cats["unk"].build_trees(None, progress=progress, **kw)
+        cats["unk"].build_trees(None, progress=progress, **tk, **kw)
         state["trees.unk"] = orc.tree_state(cats["unk"])
     if "cross" in ops:
         rk = {}
@@ -205,7 +213,7 @@ def _run_ops(case: dict, paths: dict, max_workers, progress: bool, state: dict) 
     if "iter" in ops:
         n = case["ntasks"]
         res = list(
-            parallel.iter_unordered(_probe_func, range(n), func_args=(3,), **kw)
+            parallel.iter_unordered(_probe_func, range(n), func_args=(3,), func_kwargs=dict(scale=2), **kw)
         )
         state["iter"] = sorted(res)
 
@@ -286,6 +294,12 @@ def run_case(case: dict) -> dict:
                 runs=0,
             )
         shutil.rmtree(os.path.join(root, "ref"))
+        if "iter" in case["ops"] and ref_state.get("iter") != [(i_, i_ * i_ * 2 + 3) for i_ in range(case["ntasks"])]:
+            return dict(
+                verdict="violation", runs=1, subs=[], digest="-", nontrivial=True, steps=0, probes={}, head=None,
+                signature=dict(property=PROP, entry="iter_unordered", mode="seq", outcome="value_wrong"),
+                detail=f"one worker: iter_unordered(func, range({case['ntasks']}), func_args=(3,), func_kwargs={{'scale': 2}}) gave {ref_state.get('iter')}",
+            )
 
         probes: dict[str, int] = {}
         steps = 0
